@@ -94,6 +94,7 @@ def absQua (j : Json) : Except String Json := do
   | .ok a =>
     let mode : String := match d.info.lookup "Mode" with
       | some (.str s) => s
+      | none => "Keys4"      -- the format's (and the reader's) default
       | _ => ""
     let offending := Qua.Spec.offending d
     let why := (if Qua.Spec.docAllowed d then [] else ["a key / value type outside the format: " ++
@@ -212,6 +213,7 @@ def handle (op : String) (j : Json) : Except String Json := do
     .ok (okJson (obj [("close", Json.bool v.all), ("hits", Json.bool v.hits), ("holds", Json.bool v.holds),
                       ("bpms", Json.bool v.bpms),
                       ("crowded", Json.bool (match res with | .ms => false | .beat _ _ => crowded res a)),
+                      ("tempo_crowded", Json.bool (tempoCrowded res a)),
                       ("norm_a", listToJson bpmJ (normBpms eps a.bpms)), ("norm_b", listToJson bpmJ (normBpms eps b.bpms))]))
   | "c09.facts" =>
     let a ← chartOf (← field j "a")
